@@ -57,6 +57,14 @@ def run(pid, tier, seed):
                         "bound": json.dumps(spec) + " - all ordered trees up to `nodes` nodes x both mixin families x the operation battery",
                         "evaluations": out.get("evaluations", 0), "distinct_nontrivial": out.get("nontrivial", 0),
                         "rule": "one case = (tree shape, family); each runs several hundred operations", "found": out.get("found")})
+    from . import deps
+    dep = driver.Result(pid, tier, seed)
+    deps.add(dep, pid)
+    driver.discharge_cached([o for o in dep.obligations if o.result is None], tier, seed)
+    res.obligations += [o for o in dep.obligations if o.kind not in ("CANARY", "PROBE")]
+    res.struct += dep.struct
+    res.functions += dep.functions
+    res.notes += dep.notes
     bad = [o for o in res.obligations if o.result != "unsat"]
     if bad or res.struct or out.get("found"):
         payload = {"property": pid, "failed_obligations": [o.name for o in bad], "flagged_sites": [o.note for o in bad],
